@@ -751,6 +751,13 @@ func (pe *PolicyEngine) addRepresentativePod(podNs string, objSelectors *k8s.Sin
 	if nsLabelSelector == nil && podNs == "" { // should not get here as nsLabelSelector == nil should be equivalent to podNs not empty
 		return errors.New(netpolerrors.NilNamespaceAndNilNsSelectorErr)
 	}
+	if podNs != "" {
+		// the representative pod is placed in the policy's namespace: like for a real pod, that namespace must be
+		// in the policy-engine also when the input has no Namespace manifest and no workload in it
+		if err := pe.resolveSingleMissingNamespace(podNs); err != nil {
+			return err
+		}
+	}
 	if nsLabelSelector == nil && podNs != "" {
 		// if the objSelectors.NsSelector is nil, means inferred from a rule with nil nsSelector, which means the namespace of the
 		// pod is the namespace of the policy, so adding it as its RepresentativeNsLabelSelector requirement.
